@@ -1081,7 +1081,8 @@ def cli_writer_cases(ctx, rng, shared, k):
     # the JSON text slicer behind `subset-table -j` is not string-aware (known findings F-C14-1..3 of C14):
     # JSON sources only with IDs free of quotes, brackets, braces, commas and backslashes
     slicer_safe = src_fmt == "hdf5" or all(re.match(r"^[A-Za-z0-9_. \-]+$", i) for i in spec["obs"] + spec["samp"])
-    if plain and slicer_safe:
+    # the ids file is line- and tab-separated text
+    if plain and slicer_safe and all(i.isprintable() and "\t" not in i for i in spec["obs"] + spec["samp"]):
         ax = rng.choice(["sample", "observation"])
         keep = spec["samp"] if ax == "sample" else spec["obs"]
         keep = keep[:max(1, len(keep) - 1)]
@@ -1118,7 +1119,7 @@ def less_travelled_cases(ctx, rng, shared):
     exact = ("count", "smallcount", "dyadic", "neg")
     import warnings
     # texts: normalisation twins, format-string / quoting / line-separator characters, names on both axes
-    for i in range(9 if quick else 180):
+    for i in range(9 if quick else 60):
         kind = ("twins", "nasty", "shared-names")[i % 3]
         spec = text_class_spec(rng, kind, exact)
         ctx.count("text-class:%s" % kind)
@@ -1131,12 +1132,12 @@ def less_travelled_cases(ctx, rng, shared):
                             tags=("text:%s" % kind,) + (("warnings-as-errors",) if strict else ()),
                             fvs=(None, "2.1.0"), via=("save_table" if i % 5 == 0 else "to_hdf5"))
     # value ranges: > 2**24 integers, non-dyadic fractions, denormals, extremes
-    for i in range(4 if quick else 80):
+    for i in range(4 if quick else 24):
         spec = edge_value_spec(rng)
         written_json_case(ctx, spec, rng.choice(core.ROUTES), tags=("edge-values",), path=shared, fvs=(None,))
         written_h5_case(ctx, spec, rng.choice(core.ROUTES), True, shared, tags=("edge-values",), fvs=(None,))
     # partially annotated axes (JSON; the HDF5 writer refuses inconsistent categories) and group metadata
-    for i in range(3 if quick else 60):
+    for i in range(3 if quick else 18):
         spec = gen_base_spec(rng, exact, max_n=5, max_m=5, min_n=3, min_m=3)
         spec["omd"] = [None if k % 2 else {"grp": "g%d" % k} for k in range(len(spec["obs"]))]
         spec["smd"] = [{"a": 1} if k == 0 else None for k in range(len(spec["samp"]))]
@@ -1151,7 +1152,7 @@ def less_travelled_cases(ctx, rng, shared):
     # degenerate shapes, HDF5 writer (beyond the property's stated 1..N x 1..M domain; the unchanged tree
     # holds the clause there): exactly one empty axis, the empty table, built directly and by filtering
     shapes = [(0, 3), (2, 0), (0, 0), (0, 1), (1, 0)]
-    for i, (n, m) in enumerate(shapes if quick else shapes * 8):
+    for i, (n, m) in enumerate(shapes if quick else shapes * 3):
         spec = degenerate_spec(rng, n, m)
         # sparse construction routes only: `Table(np.zeros((0, 1)), [], ['S0'])` (dense ndarray input with a
         # single ID on the non-empty axis) yields a 0x0 matrix on the unchanged tree - a constructor matter
@@ -1160,7 +1161,7 @@ def less_travelled_cases(ctx, rng, shared):
                         tags=("degenerate:%dx%d" % (n, m),), fvs=(None, "2.1.0"),
                         via=("save_table" if i % 3 == 2 else "to_hdf5"))
         ctx.count("degenerate:%dx%d" % (n, m))
-    for i, ax in enumerate(("observation", "sample") if quick else ("observation", "sample") * 8):
+    for i, ax in enumerate(("observation", "sample") if quick else ("observation", "sample") * 3):
         full = gen_base_spec(rng, exact, max_n=4, max_m=4, min_n=2, min_m=2)
         full["omd"] = core.gen_md(rng, full["obs"], "tax")
         full["smd"] = core.gen_md(rng, full["samp"], "text")
@@ -1181,7 +1182,7 @@ def less_travelled_cases(ctx, rng, shared):
         written_json_case(ctx, spec, "csr", tags=("wide:>512",), path=shared, fvs=(None,), poke=False)
         written_h5_case(ctx, spec, "csc", True, shared, tags=("wide:>512",), fvs=(None,), poke=False)
     # command-line front ends as writers
-    for k in range(6 if quick else 120):
+    for k in range(6 if quick else 24):
         cli_writer_cases(ctx, rng, shared, k)
 
 
@@ -1300,7 +1301,7 @@ def _run(ctx):
     # ALTERNATELY ONTO THE SAME PATH within this process and each is validated there
     shared = os.path.join(TMP, F_SHARED)
     dates = explicit_dates()
-    n_written = 44 if quick else 1200
+    n_written = 44 if quick else 240
     import contextlib
     from biom import err as biom_err
     for i in range(n_written):
@@ -1328,14 +1329,14 @@ def _run(ctx):
                 written_h5_case(ctx, spec2, rng.choice(core.ROUTES), bool(i % 3), shared, with_exit=(i < 10),
                                 creation_date=dt, tags=tg, via=via, format_fs=ffs, reject=(i % 8 == 0))
     # IDs that resemble each other (blanks, case, extensions, doubled): no false duplicate, all come back
-    for i in range(6 if quick else 120):
+    for i in range(6 if quick else 40):
         spec = near_duplicate_spec(rng, exact)
         written_json_case(ctx, spec, rng.choice(core.ROUTES), tags=("near-duplicate-ids",), path=shared)
         if i % 2 == 0 or not quick:
             written_h5_case(ctx, near_duplicate_spec(rng, exact), rng.choice(core.ROUTES), True, shared,
                             tags=("near-duplicate-ids",), fvs=(None, "2.1.0"))
     # size thresholds: >= 64 IDs on one axis; one metadata text >= 64 KiB; a very long ID
-    for i, axis in enumerate(("sample", "observation") if quick else ("sample", "observation") * 6):
+    for i, axis in enumerate(("sample", "observation") if quick else ("sample", "observation") * 2):
         spec = core.wide_spec(rng, n_axis=rng.choice([65, 70, 100, 130]), axis=axis, classes=exact, md=bool(i % 2))
         spec["type"] = spell_type(rng)
         written_json_case(ctx, spec, rng.choice(core.ROUTES), tags=("wide:%s" % axis,), path=shared)
@@ -1360,7 +1361,7 @@ def _run(ctx):
     written_json_case(ctx, big, "dense", tags=("big-text",), path=shared, fvs=(None,))
     written_h5_case(ctx, big, "dense", True, shared, tags=("big-text",), fvs=(None,))
     # in-place updates between exports, and tables derived from a live source
-    for k in range(6 if quick else 150):
+    for k in range(6 if quick else 30):
         spec = gen_base_spec(rng, exact, max_n=4, max_m=4, min_n=2, min_m=2)
         if k % 2 == 0:
             spec["omd"] = core.gen_md(rng, spec["obs"], "text")
@@ -1368,7 +1369,7 @@ def _run(ctx):
         inplace_and_alias_cases(ctx, rng, spec, shared, k)
     less_travelled_cases(ctx, rng, shared)
     # IDs that need escaping, on each axis independently and on both (same shared path)
-    n_hard = 36 if quick else 600
+    n_hard = 36 if quick else 120
     for i in range(n_hard):
         mode = ("samp", "obs", "both")[i % 3]
         spec = hard_id_spec(rng, mode, exact)
@@ -1382,7 +1383,7 @@ def _run(ctx):
             ctx.count("hdf5:hard-ids:%s" % mode)
 
     # ---- JSON fault enumeration
-    n_bases = 5 if quick else 12
+    n_bases = 5 if quick else 6
     n_double = 600 if quick else None
     bases = []
     for b in range(n_bases):
@@ -1408,7 +1409,7 @@ def _run(ctx):
             ctx.case({"fmt": "json", "base": base_key(spec), "muts": mus}, nontrivial=True)
             json_case(ctx, case, doc, mus, fvs=(rng.choice(JSON_FVS),))
     else:
-        budget = 330
+        budget = 260
         done = False
         for b, (spec, doc) in enumerate(bases[:3]):
             singles = json_mutations(doc)
@@ -1430,7 +1431,7 @@ def _run(ctx):
 
     # ---- HDF5: written files valid; fault enumeration
     base_path = os.path.join(TMP, F_BASE_H5)
-    n_hb = 3 if quick else 6
+    n_hb = 3 if quick else 4
     n_hdouble = 150 if quick else None
     hbases = []
     for b in range(n_hb):
@@ -1462,7 +1463,7 @@ def _run(ctx):
                 ctx.case({"fmt": "hdf5", "base": base_key(spec), "muts": mus}, nontrivial=True)
                 h5_case(ctx, case, bp, tree, mus, n, m, fvs=(rng.choice(H5_FVS),))
         else:
-            budget = 560
+            budget = 420
             spec, bp, tree, n, m = hbases[1]
             singles = h5_mutations(tree, n, m)
             bk = base_key(spec)
